@@ -9,6 +9,7 @@ import BV.C09.Lemmas4
 import BV.C09.Lemmas5
 import BV.C09.Lemmas6
 import BV.C09.Lemmas7
+import BV.C09.Lemmas8
 import BV.Generated.C09
 namespace BV.C09
 open Spec
@@ -396,6 +397,49 @@ theorem header_sanity_ok_iff (bits : Nat) (hash : List UInt8) (lim : Int) (np : 
       checkProofOfWorkFlags bits hash lim np = .ok ∧ nsec = 0 ∧ sec ≤ adj + MAX_TIME_OFFSET :=
   Lemmas.l5_sanity_ok_iff bits hash lim np sec nsec adj
 
+/-! ### network-adjusted time (`NewMedianTime` / `AddTimeSample` / `Offset` / `AdjustedTime`) -/
+
+/-- A second sample from a known source is ignored. -/
+theorem adjtime_duplicate_ignored (m : MedianTime) (id : String) (o : Int) (h : m.ids.contains id = true) :
+    m.addSample id o = m := Lemmas.l8_dup m id o h
+
+/-- For every sequence of samples, every reported offset is strictly within ±70 minutes. -/
+theorem adjtime_offset_bounded (ss : List (String × Int)) :
+    ∀ x ∈ MedianTime.run MedianTime.new ss, x.natAbs < 4200 :=
+  Lemmas.l8_run_bounded ss MedianTime.new (by decide)
+
+/-- At most 200 offsets are stored, and 200 stay 200. -/
+theorem adjtime_entries_capped (m : MedianTime) (id : String) (o : Int)
+    (hl : m.offsets.length ≤ MAX_MEDIAN_TIME_ENTRIES) :
+    (m.addSample id o).offsets.length ≤ MAX_MEDIAN_TIME_ENTRIES ∧
+      (m.offsets.length = MAX_MEDIAN_TIME_ENTRIES →
+        (m.addSample id o).offsets.length = MAX_MEDIAN_TIME_ENTRIES) := Lemmas.l8_len m id o hl
+
+/-- Once 200 samples are stored the offset never changes again (Core's behaviour, mirrored on purpose:
+    the update needs an odd count and 200 is even). -/
+theorem adjtime_frozen_at_cap (m : MedianTime) (id : String) (o : Int)
+    (hl : m.offsets.length = MAX_MEDIAN_TIME_ENTRIES) : (m.addSample id o).offset = m.offset :=
+  Lemmas.l8_frozen m id o hl
+
+/-- Fewer than five stored offsets, or an even number: the offset is left alone. -/
+theorem adjtime_no_update (m : MedianTime) (id : String) (o : Int) (h : m.ids.contains id = false)
+    (hn : (Lemmas.l8_offs m o).length < 5 ∨ (Lemmas.l8_offs m o).length % 2 ≠ 1) :
+    (m.addSample id o).offset = m.offset := Lemmas.l8_no_update m id o h hn
+
+/-- Otherwise the new offset is the median of the stored offsets (`Lemmas.l8_offs`: the previous ones, minus
+    the oldest when 200 were stored, plus the new one truncated to whole seconds), or 0 if that median is
+    70 minutes or more off. -/
+theorem adjtime_update_is_median (m : MedianTime) (id : String) (o : Int) (h : m.ids.contains id = false)
+    (h5 : 5 ≤ (Lemmas.l8_offs m o).length) (hodd : (Lemmas.l8_offs m o).length % 2 = 1) :
+    (m.addSample id o).offset = (if (Lemmas.l8_med m o).natAbs < 4200 then Lemmas.l8_med m o else 0) ∧
+      Lemmas.l8_med m o ∈ Lemmas.l8_offs m o ∧
+      ((Lemmas.l8_offs m o).filter (· < Lemmas.l8_med m o)).length ≤ (Lemmas.l8_offs m o).length / 2 ∧
+      ((Lemmas.l8_offs m o).filter (· > Lemmas.l8_med m o)).length ≤ (Lemmas.l8_offs m o).length / 2 :=
+  Lemmas.l8_update m id o h h5 hodd
+
+example : MedianTime.run MedianTime.new [("a", 7000), ("b", 7000), ("c", -1999), ("d", 7000), ("e", 7999)]
+    = [0, 0, 0, 0, 7] := by decide
+
 /-! ### whole header histories through `ProcessBlockHeader` -/
 
 /-- Whatever sequence of headers is offered, the resulting chain is the old one extended by exactly the
@@ -504,6 +548,10 @@ theorem pin_baseSubsidy : Generated.C09.baseSubsidy = (BASE_SUBSIDY : Int) := by
 theorem pin_medianTimeBlocks : Generated.C09.medianTimeBlocks = (MEDIAN_TIME_SPAN : Int) := by decide
 theorem pin_maxTimeWarp : Generated.C09.maxTimeWarpSecs = MAX_TIMEWARP := by decide
 theorem pin_maxTimeOffset : Generated.C09.maxTimeOffsetSeconds = MAX_TIME_OFFSET := by decide
+theorem pin_adjusted_time :
+    Generated.C09.maxAllowedOffsetSecs = MAX_ALLOWED_OFFSET ∧
+    Generated.C09.maxMedianTimeEntries = (MAX_MEDIAN_TIME_ENTRIES : Int) ∧
+    Generated.C09.similarTimeSecs = 300 := by decide
 theorem pin_main :
     Generated.C09.main_powLimit = 2^224 - 1 ∧ Generated.C09.main_powLimitBits = 0x1d00ffff ∧
     Generated.C09.main_subsidyInterval = 210000 ∧ Generated.C09.main_targetTimespan = 1209600 ∧
